@@ -282,10 +282,8 @@ Definition category_constructs (cat : str) : option (list construct) :=
          no-sync-fn-in-async-fn lists them since 04571d2):
          async function f() { class A { constructor() { await x; } } }     silent, the walk escapes to the async `f`
          async function f() { ({ get a() { await x; return 1 } }) }        silent *)
-Definition known_gaps : list (str * construct) :=
-  [ (K "no-this-before-super", CAutoAccessor);
-    (K "no-await-in-sync-fn", CConstructor); (K "no-await-in-sync-fn", CObjectGetter);
-    (K "no-await-in-sync-fn", CObjectSetter); (K "no-await-in-sync-fn", CStaticBlock) ].
+(* both findings were repaired in /repo (the walks now list AutoAccessor, resp. the four kinds): no gap is left *)
+Definition known_gaps : list (str * construct) := [].
 
 Definition gap_mem (r : str) (c : construct) : bool :=
   existsb (fun g => str_eqb (fst g) r && construct_eqb (snd g) c) known_gaps.
@@ -501,5 +499,5 @@ Proof. vm_compute. reflexivity. Qed.
 (* the known gaps are real: today's walks do miss those constructs (AW-1, AW-2) *)
 Example known_gaps_are_missed :
   map (fun g => existsb (fun w => str_eqb (aw_rule w) (fst g) && hits (boundary_of_walk w) (snd g)) function_boundary_walks) known_gaps
-  = [false; false; false; false; false].
+  = [].
 Proof. vm_compute. reflexivity. Qed.
